@@ -169,11 +169,22 @@ def lower_unit(spec, prop, known_uncontracted=None, known_functions=None):
                             if fd is None:
                                 ftu, fd = _find_definition(sig, tus, u)
                             if fd is not None:
+                                before_protos = dict(u.protos)
+                                before_sigs = dict(u.proto_sig)
                                 lo = u.lower_function(ftu, fd)
-                                if lo.loops == 0 and lo.name not in lo.calls and (lo.name + "__rec") not in lo.calls:
+                                fresh = [x for x in _uncontracted(u, spec_text, harness_text)
+                                         if x not in known_uncontracted and x not in b.new_unconstrained and x not in new]
+                                # a LEAF accessor only: no loop, no recursion, and it calls nothing that is itself without contract or body
+                                if lo.loops == 0 and lo.name not in lo.calls and (lo.name + "__rec") not in lo.calls and not fresh:
                                     ok = True
                                 else:
                                     del u.funcs[lo.name]
+                                    for k in list(u.protos):
+                                        if k not in before_protos:
+                                            del u.protos[k]
+                                    u.protos.update(before_protos)
+                                    u.proto_sig.clear()
+                                    u.proto_sig.update(before_sigs)
                         except Undecided:
                             ok = False
                     if ok:
